@@ -22,10 +22,11 @@ TEXT = {
   "level": "Theorems C05_terminates / C05_read_terminates (all decoder loops run in the model on fuel length(data)+1 - io.ReadFull: script size+1 - and the "
            "fuel is never exhausted, for every packet type, receiver state, byte string and reader script) and C05_lists_bounded (a decoded packet holds at "
            "most length(data) more list elements - user properties incl. the will's, subscription identifiers, topic filters, reason codes - than the "
-           "receiver held before: every append is paid for by a byte of input; Proofs/BoundP.v). Allocation size and wall-clock time are checked on the "
+           "receiver held before: every append is paid for by a byte of input; Proofs/BoundP.v), C05_work_bounded (at most 2*length(data)+16 buffer.get calls "
+           "for every packet type, receiver state and byte string; Proofs/StepsP.v). Allocation size and wall-clock time are checked on the "
            "implementation (watchdog, allocation oracle), not proved.",
   "note": NOTE + " Wall-clock time and the Go allocator are not modelled.",
-  "technique": "Coq proof of fuel sufficiency (measure len(data)-offset) and of the list-length bound (potential: elements minus offset) + correspondence with TIMEOUT observable + allocation/list-length oracle",
+  "technique": "Coq proof of fuel sufficiency (measure len(data)-offset), of the list-length bound (potential: elements minus offset) and of a linear bound on decoding steps + correspondence with TIMEOUT observable + allocation/list-length oracle",
  },
  "C06": {
   "level": "Theorems C06_exact and C06_sequence: for every frame, every continuation and every legal delivery, ReadPacket obtains exactly the frame's "
